@@ -41,7 +41,9 @@ CONSTANTS Coords,     \* lattice coordinates of finite faces (half units)
           Dims,       \* number of varying axes (1..3)
           PadLo, PadHi, \* interval of the other axes (a lattice point sits at PadPoint)
           Mode, Alg, MaxDepth,
-          LeafKind,   \* "boxes": interior = exterior;  "blobs": every interior inside the exterior
+          LeafKind,   \* "solid": interior = exterior, no zero thickness;  "boxes": interior = exterior;
+                      \* "blobs": every interior (or none) inside the exterior
+          ZoneNulls,  \* pair modes: non-canonical null boxes may be parts of a zone
           WithSemi,   \* leaves / clip starts may be semi-infinite
           Radii,      \* clip mode: radii of spheres and cylinders
           Margin,     \* lattice points reach Margin beyond the extreme coordinates
@@ -73,16 +75,17 @@ AllIntervals == (Coords \cup {-INF}) \X (Coords \cup {INF})
 BoxOf(f) == [lo |-> [a \in Axes |-> IF a <= Dims THEN f[a][1] ELSE Pad[1]],
              hi |-> [a \in Axes |-> IF a <= Dims THEN f[a][2] ELSE Pad[2]]]
 AllBoxes == {BoxOf(f) : f \in [1..Dims -> AllIntervals]} \cup {NullBox}
-AllZones == {zz \in [int : AllBoxes, ext : AllBoxes, neg : BOOLEAN] : Consistent(zz, U)}
+ZoneBoxes == IF ZoneNulls THEN AllBoxes ELSE {b \in AllBoxes : NonNull(b) \/ b = NullBox}
+AllZones == {zz \in [int : ZoneBoxes, ext : ZoneBoxes, neg : BOOLEAN] : Consistent(zz, U)}
 
 (* leaves: solids as the shapes' builders describe them *)
 LeafIntervals == {iv \in AllIntervals : iv[1] <= iv[2] /\ (WithSemi \/ (iv[1] # -INF /\ iv[2] # INF))}
-LeafBoxes == {BoxOf(f) : f \in [1..Dims -> LeafIntervals]}
+LeafBoxes == {b \in {BoxOf(f) : f \in [1..Dims -> LeafIntervals]} : LeafKind = "solid" => ~IsDegenerate(b)}
 Leaves ==
   {[z |-> Zone(i, x, FALSE), reg |-> Pts(r, U)] :
       <<i, x, r>> \in {t \in (LeafBoxes \cup {NullBox}) \X LeafBoxes \X (LeafBoxes \cup {NullBox}) :
                          /\ t[3] \in {t[1], t[2]}
-                         /\ IF LeafKind = "boxes" THEN t[1] = t[2]
+                         /\ IF LeafKind \in {"boxes", "solid"} THEN t[1] = t[2]
                             ELSE t[1] = NullBox \/ Encloses(t[2], t[1])}}
 Moves == [leaf : Leaves, neg : BOOLEAN]
 OperandZone(m) == IF m.neg THEN Negated(m.leaf.z) ELSE m.leaf.z
@@ -118,10 +121,9 @@ StartNull ==
 Combine(op) ==
   /\ Mode = "chain" /\ phase = "chain" /\ depth < MaxDepth
   /\ \E m \in Moves :
-       LET o == OperandZone(m)
-           r == CodedOp(op, z, o, Alg)
-           V == ZoneOpViolations(op, z, o, r, U)
-           D == ZoneOpDeviation(op, z, o, r, V) IN
+       \* (bound over singletons: evaluated once)
+       \E o \in {OperandZone(m)} : \E r \in {CodedOp(op, z, o, Alg)} :
+       \E V \in {ZoneOpViolations(op, z, o, r, U)} : \E D \in {ZoneOpDeviation(op, z, o, r, V)} :
        /\ z' = r
        /\ R' = (IF op = "and" THEN R \cap OperandRegion(m) ELSE R \cup OperandRegion(m))
        /\ taint' = (taint \/ D # {})
@@ -151,10 +153,10 @@ Finish ==
 PickPair ==
   /\ Mode \in {"pair", "def"} /\ phase = "init"
   /\ \E a \in AllZones, b \in AllZones :
-       LET out == [op \in {"and", "or"} |->
-                     LET r == CodedOp(op, a, b, Alg)
-                         V == ZoneOpViolations(op, a, b, r, U) IN
-                     [v |-> V, d |-> ZoneOpDeviation(op, a, b, r, V)]] IN
+       \E out \in {[op \in {"and", "or"} |->
+                     One({One({[v |-> V, d |-> ZoneOpDeviation(op, a, b, r, V)]
+                               : V \in {ZoneOpViolations(op, a, b, r, U)}})
+                          : r \in {CodedOp(op, a, b, Alg)}})]} :
        /\ pa' = a /\ pb' = b
        /\ taint' = \E op \in {"and", "or"} : out[op].d # {}
        /\ bad' = \E op \in {"and", "or"} : out[op].v # {} /\ out[op].d = {}
@@ -177,10 +179,9 @@ ClippedInterior(s, I) ==
 ClipInside ==
   /\ Mode = "clip" /\ phase = "clip" /\ depth < MaxDepth
   /\ \E s \in Surfaces :
-       LET io == ClippedInterior(s, ci)
-           xo == cx \cap SurfBoxPts(s, U)
-           V == ClipViolations(s, ci, cx, io, xo, U)
-           dv == SphereInteriorNotInscribed(s, ci, io, V, U) IN
+       \E io \in {ClippedInterior(s, ci)}, xo \in {cx \cap SurfBoxPts(s, U)} :
+       \E V \in {ClipViolations(s, ci, cx, io, xo, U)} :
+       \E dv \in {SphereInteriorNotInscribed(s, ci, io, V, U)} :
        /\ ci' = io /\ cx' = xo /\ R' = R \cap SurfRegion(s, U)
        /\ taint' = (taint \/ (V # {} /\ dv))
        /\ bad' = (bad \/ (V # {} /\ ~dv))
@@ -191,9 +192,8 @@ ClipInside ==
 ClipOutside ==
   /\ Mode = "clip" /\ phase = "clip" /\ depth < MaxDepth
   /\ \E s \in Surfaces :
-       LET out == SurfOutRegion(s, U)
-           io == IF s.t = "p" THEN ci \cap out ELSE {}
-           xo == IF s.t = "p" THEN cx \cap out ELSE cx IN
+       \E out \in {SurfOutRegion(s, U)} :
+       \E io \in {IF s.t = "p" THEN ci \cap out ELSE {}}, xo \in {IF s.t = "p" THEN cx \cap out ELSE cx} :
        /\ ci' = io /\ cx' = xo /\ R' = R \cap out
        /\ bad' = (bad \/ NegClipViolations(s, ci, cx, io, xo, U) # {})
   /\ depth' = depth + 1
@@ -249,13 +249,23 @@ GenClipSeq == SetToSeq(UNION {[1..n -> GenClipMoves] : n \in 1..MaxDepth})
 (* unit mode: object trees over box solids, built for real through UnitProto / InputBuilder *)
 \* (one record shape for every node: TLC cannot compare records with different fields)
 UnitLeaves == {[k |-> "box", lo |-> b.lo, hi |-> b.hi, c |-> <<>>] : b \in {bb \in LeafBoxes : ~IsDegenerate(bb)}}
-RECURSIVE TreesUpTo(_)
-TreesUpTo(n) ==
-  IF n = 0 THEN UnitLeaves
-  ELSE LET T == TreesUpTo(n - 1) IN
-       T \cup {[k |-> "not", lo |-> <<>>, hi |-> <<>>, c |-> <<t>>] : t \in T}
-         \cup {[k |-> op, lo |-> <<>>, hi |-> <<>>, c |-> <<t1, t2>>] : op \in {"and", "or"}, t1 \in T, t2 \in T}
-GenUnitSeq == SetToSeq(TreesUpTo(MaxDepth))
+TNot(t) == [k |-> "not", lo |-> <<>>, hi |-> <<>>, c |-> <<t>>]
+TJoin(op, t1, t2) == [k |-> op, lo |-> <<>>, hi |-> <<>>, c |-> <<t1, t2>>]
+Ops == {"and", "or"}
+\* literals: a solid or its complement
+Lits == UnitLeaves \cup {TNot(t) : t \in UnitLeaves}
+\* every join of two literals, every join of a literal with such a join (either order), and the
+\* same with the inner join negated: the shapes in which an unsound intermediate zone can reach
+\* the exterior box of the volume (MaxDepth >= 2; MaxDepth = 1 keeps the two-literal joins)
+Joins1 == {TJoin(op, a, b) : op \in Ops, a \in Lits, b \in Lits}
+Inner == Joins1 \cup {TNot(t) : t \in Joins1}
+UnitTrees ==
+  Lits \cup Inner
+  \cup (IF MaxDepth >= 2
+        THEN {TJoin(op, a, t) : op \in Ops, a \in Lits, t \in Inner}
+             \cup {TJoin(op, t, a) : op \in Ops, a \in Lits, t \in Inner}
+        ELSE {})
+GenUnitSeq == SetToSeq(UnitTrees)
 UnitBoundary ==
   [k |-> "box", c |-> <<>>,
    lo |-> [a \in Axes |-> IF a <= Dims THEN MinOf(Coords) - 2 ELSE PadLo - 2],
